@@ -92,6 +92,10 @@ func NewTerminfoScreenFromTtyTerminfo(tty Tty, ti *terminfo.Terminfo) (s Screen,
 	t.prepareKeys()
 	t.buildAcsMap()
 	t.resizeQ = make(chan bool, 1)
+	// The queues exist from the start, so that Fini and PollEvent work on
+	// a screen whose Init failed as they do on any other.
+	t.quit = make(chan struct{})
+	t.eventQ = make(chan Event, 10)
 	t.fallback = make(map[rune]string)
 	for k, v := range RuneFallbacks {
 		t.fallback[k] = v
@@ -232,9 +236,6 @@ func (t *tScreen) Init() error {
 		// identity map for our builtin colors
 		t.colors[Color(i)|ColorValid] = Color(i) | ColorValid
 	}
-
-	t.quit = make(chan struct{})
-	t.eventQ = make(chan Event, 10)
 
 	t.Lock()
 	t.cx = -1
@@ -2217,7 +2218,9 @@ func (t *tScreen) Beep() error {
 // to it's initial state.  It should not be called more than once.
 func (t *tScreen) finalize() {
 	t.disengage()
-	_ = t.tty.Close()
+	if t.tty != nil {
+		_ = t.tty.Close()
+	}
 }
 
 func (t *tScreen) StopQ() <-chan struct{} {
